@@ -230,14 +230,25 @@ def make_scenario(sc):
                 for k, ch in enumerate(prog):
                     t.publish(ch, (i, ch, k), None)
             bodies.append(pub)
+        subs = [t.subscribe(pat) for pat in sc["patterns"]]
         for j, pat in enumerate(sc["patterns"]):
             def sub(j=j, pat=pat):
-                for msg in t.subscribe(pat):
+                for msg in subs[j]:
                     received[j].append(msg.data)
             bodies.append(sub)
 
         def finish(ex):
             rest = []
+            # an open subscription iterated again must see what is still queued for its pattern (never stranded behind a stale view)
+            again = [[] for _ in subs]
+            try:
+                for j, sb in enumerate(subs):
+                    for msg in sb:
+                        again[j].append(msg.data)
+            except BaseException as exc:  # noqa: BLE001
+                ex.errors[-2] = exc
+            for j in range(len(subs)):
+                received[j].extend(again[j])
             try:
                 for msg in t.subscribe("*"):
                     rest.append(msg.data)
@@ -270,6 +281,11 @@ def judge(sc, ex, obs):
         out.append(("message-lost", f"published but never delivered: {sorted(lost.elements(), key=str)}"))
     if dup:
         out.append(("message-duplicated", f"delivered more often than published: {sorted(dup.elements(), key=str)}"))
+    for (p, ch, k) in obs["rest"]:
+        pats = [pat for pat in sc["patterns"] if fnmatch.fnmatch(ch, pat)]
+        if pats:
+            out.append(("stranded-behind-open-subscription",
+                        f"message {(p, ch, k)} stays queued although the open subscription(s) {pats} were iterated again after it was published"))
     for j, pat in enumerate(sc["patterns"]):
         for (p, ch, k) in obs["received"][j]:
             if not fnmatch.fnmatch(ch, pat):
